@@ -5,6 +5,7 @@
 #include <cstring>
 #include <map>
 #include <string>
+#include <vector>
 struct IdHash { static size_t hash(size_t k) { return k; } static bool equal(size_t a, size_t b) { return a == b; } };
 using M = tbb::concurrent_hash_map<size_t, int, IdHash>;
 static std::map<std::string, unsigned long long> in;
@@ -31,10 +32,55 @@ static bool erase_vs_holder(std::string& why) {
     }
     return false;
 }
+
+// Concurrent insert / find / erase on a map that grows from empty while the threads run: per key exactly one insert and one erase may win, every inserted key must be
+// found, and the element count must match.  Hashes collide in the low bits (parent/child buckets of every split) or are constant / identity.
+struct LowHash { static size_t hash(size_t k) { return (k << 7) | (k & 1); } static bool equal(size_t a, size_t b) { return a == b; } };
+struct ConstHash { static size_t hash(size_t) { return 5; } static bool equal(size_t a, size_t b) { return a == b; } };
+template <class Map> static bool stress_one(const char* hname, size_t K, int rounds, std::string& why) {
+    const int T = 4;
+    for (int r = 0; r < rounds; ++r) {
+        Map m; std::vector<std::atomic<int>> ins(K), era(K); for (size_t i = 0; i < K; ++i) { ins[i] = 0; era[i] = 0; }
+        std::atomic<int> go{0}, missing{0}; std::vector<std::thread> th;
+        for (int t = 0; t < T; ++t) th.emplace_back([&, t] {
+            ++go; while (go < T) std::this_thread::yield();
+            for (size_t i = 0; i < K; ++i) { size_t k = (t & 1) ? K - 1 - i : i; bool ok;
+                if (t == 0) { typename Map::accessor a; ok = m.insert(a, k); if (a.empty() || a->first != k) ++missing; }
+                else if (t == 1) { typename Map::const_accessor a; ok = m.insert(a, std::make_pair(k, 1)); if (a.empty() || a->first != k) ++missing; }
+                else if (t == 2) ok = m.emplace(k, 2); else ok = m.insert(std::make_pair(k, 3));
+                if (ok) ++ins[k];
+                typename Map::const_accessor f; if (!m.find(f, k)) ++missing; }
+        });
+        for (auto& x : th) x.join(); th.clear();
+        char buf[400];
+        for (size_t k = 0; k < K; ++k) if (ins[k] != 1) { std::snprintf(buf, sizeof buf, "%s hash, round %d: %d of 4 concurrent inserts of absent key %zu returned true (expected exactly 1); size()=%zu of %zu keys", hname, r, (int)ins[k], k, m.size(), K); why = buf; return true; }
+        if (missing) { std::snprintf(buf, sizeof buf, "%s hash, round %d: %d finds / accessors issued after an insert of the key had completed (and before any erase) came back empty", hname, r, (int)missing); why = buf; return true; }
+        size_t walk = 0; for (auto it = m.begin(); it != m.end(); ++it) ++walk;
+        if (m.size() != K || walk != K) { std::snprintf(buf, sizeof buf, "%s hash, round %d: %zu keys inserted once each, size()=%zu, %zu elements reachable by iteration (lost or duplicated during growth / lazy rehash)", hname, r, K, m.size(), walk); why = buf; return true; }
+        go = 0;
+        for (int t = 0; t < T; ++t) th.emplace_back([&, t] {
+            ++go; while (go < T) std::this_thread::yield();
+            for (size_t i = 0; i < K; ++i) { size_t k = (t & 1) ? K - 1 - i : i; bool ok;
+                if (t == 0) { typename Map::accessor a; ok = m.find(a, k) && m.erase(a); } else ok = m.erase(k);
+                if (ok) ++era[k]; }
+        });
+        for (auto& x : th) x.join();
+        for (size_t k = 0; k < K; ++k) if (era[k] != 1) { std::snprintf(buf, sizeof buf, "%s hash, round %d: %d concurrent erases of present key %zu returned true (expected exactly 1)", hname, r, (int)era[k], k); why = buf; return true; }
+        if (m.size() != 0) { std::snprintf(buf, sizeof buf, "%s hash, round %d: size()=%zu after every key was erased", hname, r, m.size()); why = buf; return true; }
+    }
+    return false;
+}
+static bool stress_map(std::string& why) {
+    return stress_one<tbb::concurrent_hash_map<size_t, int, IdHash>>("identity", 3000, 150, why)
+        || stress_one<tbb::concurrent_hash_map<size_t, int, LowHash>>("low-bit-colliding", 3000, 150, why)
+        || stress_one<tbb::concurrent_hash_map<size_t, int, ConstHash>>("constant", 300, 40, why);
+}
 int main(int argc, char** argv) {
     std::string job = argc > 1 ? argv[1] : "";
     for (int i = 2; i < argc; ++i) { char* e = std::strchr(argv[i], '='); if (e) in[std::string(argv[i], e - argv[i])] = std::strtoull(e + 1, 0, 0); }
     { std::string why; if (job.rfind("erase", 0) == 0 && erase_vs_holder(why)) { std::printf("REPRODUCED class=element-destroyed-under-accessor %s\n", why.c_str()); return 0; } }
+    { std::string why; bool conc = job.rfind("lookup", 0) == 0 || job.rfind("rehash.bucket", 0) == 0 || job.rfind("grow", 0) == 0 || job.rfind("search", 0) == 0 || job.rfind("bucket.acquire", 0) == 0;
+      if (conc && stress_map(why)) { std::printf("REPRODUCED class=map-not-linearizable %s\n", why.c_str()); return 0; } }
     M m; for (size_t i = 0; i < 5000; ++i) m.insert({i, 0});        // table of 8192 buckets, mask 0x1FFF
     using B = tbb::detail::d2::hash_map_base<tbb::tbb_allocator<std::pair<const size_t, int>>, tbb::spin_rw_mutex>;
     B& b = (B&)m;   // private base: C-style cast
